@@ -3,6 +3,7 @@
 From Coq Require Import String Ascii List Bool Arith NArith ZArith Lia.
 From Raven Require Import Base.GoStr Base.GoStrFacts Model.Search Model.SearchText Spec.Search Model.SearchClass
   Proof.SearchTok Proof.SearchAtoms Proof.SearchDate Proof.SearchEval.
+From Raven Require Model.SeqSet Spec.SeqSet Proof.FetchSearchExact.
 Import ListNotations.
 Local Open Scope Z_scope.
 Local Arguments Ascii.eqb : simpl never.
@@ -37,6 +38,20 @@ Qed.
 Lemma quote_tok v : string_ok v = true -> tok_ok (quote v) = true.
 Proof. intros H. unfold quote, tok_ok. cbn [tok_scan]. replace (Ascii.eqb dq dq) with true by reflexivity. cbn [negb]. now apply quote_scan. Qed.
 
+Lemma seqchar_plain c : FetchSearchExact.seqchar c = true -> plain c = true.
+Proof.
+  intros H. assert (K : negb (FetchSearchExact.seqchar c) || plain c = true).
+  { clear H. revert c. ascii_sweep (fun c => negb (FetchSearchExact.seqchar c) || plain c). }
+  rewrite H in K. exact K.
+Qed.
+
+Lemma set_tok s : Spec.SeqSet.wf s = true -> tok_ok (Spec.SeqSet.print s) = true.
+Proof.
+  intros W. destruct (print_set_facts s W) as (_ & _ & HD & SC). apply plain_tok.
+  - intros E. rewrite E in HD. discriminate.
+  - revert SC. apply forallb_impl. apply seqchar_plain.
+Qed.
+
 Lemma simple_toks_ok k mb : atomic k -> wf_key k = true -> simple_class k mb = None -> forallb tok_ok (key_tokens k) = true.
 Proof.
   intros Hat W C. destruct k; try contradiction; cbn [simple_class] in C; try discriminate; cbn [key_tokens wf_key] in *.
@@ -46,18 +61,8 @@ Proof.
   - reflexivity.
   - destruct (atom_facts w W) as (A1 & _ & _ & _ & A5). cbn [forallb]. rewrite (plain_tok w A1 A5). reflexivity.
   - destruct (atom_facts w W) as (A1 & _ & _ & _ & A5). cbn [forallb]. rewrite (plain_tok w A1 A5). reflexivity.
-  - unfold set_class in C. destruct s as [|[[d|]|[a|] [b|]] [|? ?]]; try discriminate; unfold set_ok in W; cbn in W; rewrite andb_true_r in W.
-    + destruct (numeral_digits d W) as [Hd Hne]. unfold print_set. cbn [map join print_item print_snum forallb].
-      rewrite (plain_tok d Hne (digits_plain d Hd)). reflexivity.
-    + apply andb_true_iff in W as [Wa Wb]. destruct (numeral_digits a Wa) as [Hda Hnea]. destruct (numeral_digits b Wb) as [Hdb Hneb].
-      unfold print_set. cbn [map join print_item print_snum forallb]. rewrite (plain_tok (a ++ colon :: b)); [reflexivity | now destruct a |].
-      rewrite forallb_app, (digits_plain a Hda). cbn [forallb]. now rewrite (digits_plain b Hdb).
-  - unfold set_class in C. destruct s as [|[[d|]|[a|] [b|]] [|? ?]]; try discriminate; unfold set_ok in W; cbn in W; rewrite andb_true_r in W.
-    + destruct (numeral_digits d W) as [Hd Hne]. unfold print_set. cbn [map join print_item print_snum forallb].
-      rewrite (plain_tok d Hne (digits_plain d Hd)). reflexivity.
-    + apply andb_true_iff in W as [Wa Wb]. destruct (numeral_digits a Wa) as [Hda Hnea]. destruct (numeral_digits b Wb) as [Hdb Hneb].
-      unfold print_set. cbn [map join print_item print_snum forallb]. rewrite (plain_tok (a ++ colon :: b)); [reflexivity | now destruct a |].
-      rewrite forallb_app, (digits_plain a Hda). cbn [forallb]. now rewrite (digits_plain b Hdb).
+  - unfold set_ok in W. cbn [forallb]. now rewrite (set_tok s W).
+  - unfold set_ok in W. cbn [forallb]. now rewrite (set_tok s W).
   - cbn [forallb]. rewrite (quote_tok v W). destruct h; reflexivity.
   - apply andb_true_iff in W as [W1 W2]. cbn [forallb]. now rewrite (quote_tok f W1), (quote_tok v W2).
   - cbn [forallb]. now rewrite (quote_tok v W).
